@@ -1,6 +1,10 @@
 """C17 — one document, one meaning: formats, tools and default algorithm agree.
 
-Tie: (A) `_detect_format` on every hint combination vs the model; (B) every generated document,
+Tie: (A) `_detect_format` on every hint combination vs the model; (A') the parser dispatch (`parse_policy_text/bytes`, `_parse_yaml`) and the
+command functions (`_validate_doc`, `cmd_lint/validate/check`, `main`) translated from the current source and proved equal to the model for every
+outcome of their collaborators (Run/C17_cli_translated.lean), the real functions driven with stub collaborators against the model and the
+translation on every outcome combination of a small scope, the delivery paths' parser calls / the validator call / the default-algorithm literals
+read syntactically and compared with pinned expectations resp. the probed defaults; (B) every generated document,
 rendered as JSON and YAML, delivered through parse_policy_text/bytes, FilePolicySource, faked HTTP and
 S3 and the CLI, must parse to the identical object and give identical decisions; (C) validator / CLI
 statuses vs the bundled schema's verdict and the model's status function; (D) the default algorithm:
@@ -84,6 +88,115 @@ def check_translated_detect(run: lib.Run, audit: dict, violations: list) -> None
         run.evaluations += len(calls)
     run.obligation("translated _detect_format evaluates like the Python function (translator + Model/PyLib.lean vs CPython, ASCII inputs)",
                    good and bad == 0, "agree" if good and bad == 0 else (f"{bad} of {len(calls)} differ" if good else (p.stderr or p.stdout)[-500:]))
+
+
+# ---------------------------------------------------------------- A': the command line and the parser dispatch, tied by regeneration
+
+EXPECTED_DELIVERY = {
+    "FilePolicySource.load": {"parser_calls": [{"fn": "parse_policy_text", "from": ".policy_loader:parse_policy_text", "positional": 1,
+                                                "hints": {"filename": "self.path"}}], "other_parsers": []},
+    # a response object that has a `.json` method is asked first (twice in the text: the fast path, and the empty-body fallback); a
+    # failure or a non-dict falls through to parse_policy_text with the URL and the Content-Type as hints
+    "HTTPPolicySource.load": {"parser_calls": [{"fn": "parse_policy_text", "from": ".policy_loader:parse_policy_text", "positional": 1,
+                                                "hints": {"filename": "self.url", "content_type": "content_type"}}],
+                              "other_parsers": ["r.json()", "r.json()"]},
+    "S3PolicySource.load": {"parser_calls": [{"fn": "parse_policy_bytes", "from": ".policy_loader:parse_policy_bytes", "positional": 1,
+                                              "hints": {"filename": "self.loc.key"}}], "other_parsers": []},
+}
+EXPECTED_VALIDATOR = {"params": ["policy"], "schema_files": ["policy.schema.json"], "schema_package": ["'rbacx.dsl'"],
+                      "validator_calls": ["jsonschema.validate(policy, schema)"], "import_guard": [["Exception", "RuntimeError"]],
+                      "last_statement": "jsonschema.validate(policy, schema)", "returns": []}
+EXPECTED_IMPORTS = {"parse_policy_text": ".store.policy_loader:parse_policy_text", "validate_policy": ".dsl.validate:validate_policy",
+                    "analyze_policy": ".dsl.lint:analyze_policy", "analyze_policyset": ".dsl.lint:analyze_policyset"}
+MODEL_FNS = ("_parse_yaml", "parse_policy_text", "parse_policy_bytes", "_load_policy_from_arg", "cmd_lint", "cmd_validate", "cmd_check")
+
+
+def check_translated_cli(run: lib.Run, audit: dict, violations: list) -> None:
+    """tie by regeneration: `_parse_yaml` / `parse_policy_text` / `parse_policy_bytes` (store/policy_loader.py) and `_validate_doc` / `cmd_lint` /
+    `cmd_validate` / `cmd_check` with their helpers (cli.py) as written now, translated into Lean (plugin src_translation_cli), are proved
+    equal to the model's `parsePolicyText` / `cliRun` … for every combination of outcomes of the collaborators (Run/C17_cli_translated.lean);
+    the REAL functions, driven with stub collaborators, are compared with the translation (Run/SrcEvalCli.lean) AND with the model (driver
+    `cli-model`) on every outcome combination of a small scope plus seeded random ones"""
+    import subprocess
+    import clicases
+    tr = audit["facts"].get("translated_cli")
+    failed_extraction = tr.get("extraction_failed") if isinstance(tr, dict) else "no facts"
+    ok, detail = lib.run_obligation("C17_cli_translated", deps=["C17_translated"])
+    if isinstance(tr, dict) and isinstance(tr.get("main"), dict) and "failed" in tr["main"]:
+        ok, detail = False, "cli.main left the translatable subset: " + tr["main"]["failed"]
+    run.obligation("C17_cli_translated: Generated.Src.parse_policy_text/bytes = parsePolicyText/Bytes, Src.cmd_lint/cmd_validate/cmd_check = cliRun, "
+                   "Src.cli_main = cliMain, for every outcome of every collaborator", ok, "discharged" if ok else (str(failed_extraction) if failed_extraction else detail))
+    if not ok:
+        path = run.write_replay("obligation_cli", {"what": "per-run obligation Rbacx/Run/C17_cli_translated.lean no longer checks: the translated source of the "
+                                                   "parser dispatch (store/policy_loader.py) / the command functions (cli.py) is not proved equal to the model "
+                                                   "functions parsePolicyText / cliRun / cliMain that theorems Rbacx.C17.c17_parse_dispatch, c17_cli_run_status, "
+                                                   "c17_cli_* are about (the outcome combinations of this run, real code against the model, are the search for "
+                                                   "a failing input)", "extraction": failed_extraction, "lean": detail[-1500:]})
+        run.extra.setdefault("translated_obligation_replay", path)
+    if isinstance(tr, dict) and not failed_extraction:
+        for name, got, want in (("delivery paths: FilePolicySource / HTTPPolicySource / S3PolicySource reach a parser only as pinned (parse_policy_text/bytes "
+                                 "with these hints; HTTP also the response's own .json())", tr.get("delivery"), EXPECTED_DELIVERY),
+                                ("validate_policy: jsonschema.validate(policy, <rbacx.dsl/policy.schema.json>), import failure = RuntimeError",
+                                 tr.get("validator"), EXPECTED_VALIDATOR),
+                                ("cli.py takes parse_policy_text / validate_policy / analyze_policy / analyze_policyset from the expected modules",
+                                 tr.get("imports"), EXPECTED_IMPORTS)):
+            same = got == want
+            run.obligation("C17 syntactic reading — " + name, same, "as pinned" if same else "now: " + json.dumps(got)[:600])
+            if not same and not run.extra.get("translated_obligation_replay"):
+                run.extra["translated_obligation_replay"] = run.write_replay("reading", {"what": "a syntactic fact the C17 theorems are applied under changed: " + name,
+                                                                                         "now": got, "pinned": want})
+        ok2, detail2 = lib.run_obligation("C17_default_literals")
+        lits = {k: (v or {}).get("literal", v) for k, v in (tr.get("default_literals") or {}).items()}
+        run.obligation("C17_default_literals: the default-algorithm literals read from the source text = the defaults probed behaviourally", ok2,
+                       "discharged: " + json.dumps(lits) if ok2 else f"literals {json.dumps(lits)} vs probed {json.dumps(audit['facts'].get('consts'))}: {detail2[-300:]}")
+        if not ok2 and not run.extra.get("translated_obligation_replay"):
+            run.extra["translated_obligation_replay"] = run.write_replay("default_literals", {
+                "what": "the default-algorithm literals in the source text and the probed defaults differ", "literals": tr.get("default_literals"),
+                "probed": audit["facts"].get("consts"), "lean": detail2[-800:]})
+    # differential: real functions with stub collaborators  vs  the model (always)  vs  the translation (when it exists)
+    cases = clicases.loader_cases() + clicases.helper_cases() + clicases.cli_cases(run.seed, 500 * run.boost if run.tier == "quick" else 6000)
+    if not failed_extraction and isinstance(tr, dict) and "lean" in (tr.get("main") or {}):
+        cases += clicases.main_cases(run.seed)
+    reals = [clicases.run_real(*c) for c in cases]
+    for c, r in zip(cases, reals):
+        run.count("cli-outcomes:" + c[0] + ":" + (("status " + str(r["ok"])) if "ok" in r and c[0].startswith(("cmd_", "main")) else ("returns" if "ok" in r else "raises")))
+    midx = [i for i, c in enumerate(cases) if c[0] in MODEL_FNS + ("main",)]
+    mouts = proto.run_driver([{"cmd": "cli-model", **json.loads(clicases.line(*cases[i]))} for i in midx])
+    nbad = 0
+    for i, m in zip(midx, mouts):
+        run.evaluations += 1
+        c = cases[i]
+        if isinstance(m, dict) and "error" in m and "outside the model's domain" in str(m.get("error")):
+            run.count("cli-model:outside-domain")
+            continue
+        run.case(["cli", c[0], c[1], sorted(c[2])], "ok" in reals[i], None)
+        if clicases.project(reals[i]) != clicases.project_lean(m if isinstance(m, dict) else {"error": m}):
+            nbad += 1
+            if nbad == 1:
+                run.spec_failures.append({"part": "command line / parser dispatch", "function": c[0], "arguments": c[1], "collaborator_outcomes": c[2],
+                                          "impl": reals[i], "model": m,
+                                          "spec": "the real function (stub collaborators with these outcomes) does not do what the model's "
+                                                  "parsePolicyText / cliLoad / cliRun / cliMain says"})
+    if failed_extraction or not (isinstance(tr, dict) and all("lean" in (tr.get(n) or {}) for n in ("cmd_check", "parse_policy_bytes"))):
+        return
+    lines = [clicases.line(*c) for c in cases]
+    p = subprocess.run(["lake", "env", "lean", "--run", "Rbacx/Run/SrcEvalCli.lean"], cwd=lib.LEAN, input="\n".join(lines) + "\n",
+                       capture_output=True, text=True, timeout=900)
+    outs = [ln for ln in p.stdout.split("\n") if ln]
+    good = p.returncode == 0 and len(outs) == len(lines)
+    bad = 0
+    if good:
+        for c, r, ln in zip(cases, reals, outs):
+            run.count("translated-cli-vs-python")
+            if clicases.project(r) != clicases.project_lean(json.loads(ln)):
+                bad += 1
+                if bad == 1:
+                    run.disagreements.append({"part": "translator", "what": f"translated {c[0]} (Generated.Src) and the Python function differ",
+                                              "args": c[1], "collaborator_outcomes": c[2], "python": r, "translated": json.loads(ln)})
+        run.evaluations += len(cases)
+    run.obligation("translated parser dispatch / command functions evaluate like the Python functions under the same collaborator outcomes "
+                   "(translator + Model/PyCli.lean vs CPython)", good and bad == 0,
+                   "agree" if good and bad == 0 else (f"{bad} of {len(cases)} differ" if good else (p.stderr or p.stdout)[-500:]))
 
 
 def check_detect(run: lib.Run):
@@ -483,7 +596,10 @@ def check_defaults(run: lib.Run, audit: dict, violations: list, scale: int = 1):
 
 
 def check(run: lib.Run, audit: dict) -> int:
-    run.rule = ("A: all 7×9×11 (fmt, content-type, filename) combinations; B/C: grammar documents and 14 kinds of single-point mutations, each as JSON and "
+    run.rule = ("A: all 7×9×11 (fmt, content-type, filename) combinations; A': command × --policyset × --strict × 11 document shapes × validator outcome per "
+                "validated value (ok / ValidationError / RuntimeError / RecursionError / KeyboardInterrupt / TypeError) × lint outcome, read/parse failures × "
+                "paths, hint combinations × parser outcomes, main × argv × parse_args outcome × command outcome, + seeded random combinations: real "
+                "functions with stub collaborators vs model vs translation; B/C: grammar documents and 14 kinds of single-point mutations, each as JSON and "
                 "YAML through 20 delivery paths (parse_policy_text/bytes with conflicting hints, FilePolicySource .json/.yaml/.yml/.YAML, faked HTTP ×4, "
                 "faked S3 ×2) and the CLI (validate/check × file format × --policyset × --strict); D: the 2-rule witness on 6 paths + linter, random "
                 "algorithm-less (absent/null/empty, at any level) documents on the engine. non-trivial = document with rules that parsed identically / "
@@ -494,6 +610,7 @@ def check(run: lib.Run, audit: dict) -> int:
         raise lib.CheckError(f"Lean build/audit failed at {audit['stage']}: {audit.get('log') or audit.get('forbidden') or audit.get('bad_axioms')}")
     violations: list = []
     check_translated_detect(run, audit, violations)
+    check_translated_cli(run, audit, violations)
     check_detect(run)
     check_paths_and_tools(run, audit)
     check_defaults(run, audit, violations, scale=run.boost)
@@ -514,6 +631,14 @@ def check(run: lib.Run, audit: dict) -> int:
 def replay(run: lib.Run, audit: dict, path: str) -> int:
     rp = json.load(open(path))
     c = rp.get("case") or rp.get("first")
+    if c is None:
+        print("recorded:", json.dumps(rp, default=str)[:3000])
+        return 0
+    if "function" in c and "collaborator_outcomes" in c:
+        import clicases
+        ext = {n: [[a, tuple(o)] for a, o in rows] for n, rows in c["collaborator_outcomes"].items()}
+        print("real function now:", clicases.run_real(c["function"], c["arguments"], ext))
+        print("model now:", proto.run_driver([{"cmd": "cli-model", **json.loads(clicases.line(c["function"], c["arguments"], ext))}])[0])
     if "request" in c and "policy" in c:
         print("engine now:", real.run_guard(c["policy"], c["request"], c.get("cfg") or {}))
     print("recorded:", json.dumps(c, default=str)[:1500])
